@@ -437,7 +437,7 @@ def library() -> List[Dict[str, Any]]:
          "default": {"name": "dflt"}},
         {"kind": "table", "name": "T", "key_dop": "u8",
          "rows": [{"name": "r1", "key": 1, "struct": "S_item"}, {"name": "r2", "key": 2, "dop": "u16"}, {"name": "r3", "key": 3, "struct": "S_flat"}]},
-        {"kind": "dtcdop", "name": "dtc3", "dct": std("A_UINT32", 24), "dtcs": [{"name": "P0001", "code": 1}, {"name": "P1234", "code": 0x123456}]},
+        {"kind": "dtcdop", "name": "dtc3", "dct": std("A_UINT32", 24), "dtcs": [{"name": "P0001", "code": 1}, {"name": "P1234", "code": 0x123456}, {"name": "P0000", "code": 0}]},  # (a trouble code of zero is legal)
         {"kind": "dtcdop", "name": "dtc3b", "dct": std("A_UINT32", 24), "dtcs": [{"name": "B0001", "code": 0x0B0001}, {"name": "B0002", "code": 0x0B0002}]},
         {"kind": "dtcdop", "name": "dtc3l", "dct": std("A_UINT32", 24), "dtcs": [{"name": "L0001", "code": 0x0C0001}],
          "linked": [{"dop": "dtc3b", "not_inherited": ["B0002"]}]},  # inherits B0001 from dtc3b
@@ -540,7 +540,7 @@ def templates() -> Dict[str, Any]:
     reg("VLDEF", 1, lambda i: [{f"vd{i}": 0}, {f"vd{i}": 200}], lambda i: [P("VALUE", f"vd{i}", dop="lindef")])
     reg("DTC", 3, lambda i: [{f"dt{i}": 0x123456}, {f"dt{i}": "P0001"}], lambda i: [P("VALUE", f"dt{i}", dop="dtc3")])
     reg("DTCL", 3, lambda i: [{f"dl{i}": 0x0C0001}, {f"dl{i}": 0x0B0001}, {f"dl{i}": "B0001"}], lambda i: [P("VALUE", f"dl{i}", dop="dtc3l")])
-    reg("DTCENV", None, lambda i: [{f"dtc{i}": 1, f"env{i}": {"e_all": 5}}, {f"dtc{i}": 0x123456, f"env{i}": {"e_all": 5, "e_spec": 0x1234}}],
+    reg("DTCENV", None, lambda i: [{f"dtc{i}": 1, f"env{i}": {"e_all": 5}}, {f"dtc{i}": 0x123456, f"env{i}": {"e_all": 5, "e_spec": 0x1234}}, {f"dtc{i}": 0, f"env{i}": {"e_all": 7}}],
         lambda i: [P("VALUE", f"dtc{i}", dop="dtc3"), P("VALUE", f"env{i}", dop=f"@ENV@{i}")])
     reg("BZ", None, lambda i: [{f"bz{i}": b""}, {f"bz{i}": b"\x41"}, {f"bz{i}": b"\x41\x42\x43"}], lambda i: [P("VALUE", f"bz{i}", dop="bz")])
     reg("BEOP", None, lambda i: [{f"be{i}": b"\x41"}, {f"be{i}": b"\x00\x41\xff"}], lambda i: [P("VALUE", f"be{i}", dop="beop")], last_only=True)
